@@ -396,7 +396,17 @@ def run_exotic(R):
     for (family, n, E, X, Q, edit) in cases:
         g, obs = exotic_case(family, n, E, X, Q, edit)
         at = len(cmds)
-        cmds += [['reach', g, X], ['rev', g], ['sub', g, X], ['clone', g]] + exotic_seq_cmds(g, obs, Q)
+        mine = [['reach', g, X], ['rev', g], ['sub', g, X], ['clone', g]] + exotic_seq_cmds(g, obs, Q)
+        if any('foreign:' in sx_str(c) for c in mine):
+            # a presentation read back from a graph object contains something that is not one of the caller's node objects: a query
+            # (or an edit) put it there - the model has nothing to say about such a graph, the library has already failed
+            R.evaluations += 1
+            R.violation('graph operation on non-int node objects (%s): G (or G after the in-place edit) now contains a node that is not one of '
+                        'the caller\'s node objects - a query inserted it' % family,
+                        {'family': family, 'n': n, 'E': E, 'X': X, 'Q': Q, 'edit': edit, 'impl': obs, 'model': None, 'differs': ['G modified'],
+                         'stream': 'exotic node objects'})
+            continue
+        cmds += mine
         meta.append((family, n, E, X, obs, g, Q, edit, at))
     outs = model_batch_parallel(cmds)
     hist = {}
@@ -878,6 +888,10 @@ def replay(R, data):
         Q = d.get('Q', [])
         g, obs = exotic_case(d['family'], d['n'], [tuple(e) for e in d['E']], d['X'], Q, d.get('edit'))
         print('impl :', obs)
+        if any('foreign:' in sx_str(c) for c in [['reach', g, d['X']]] + exotic_seq_cmds(g, obs, Q)):
+            print('a graph object now contains a node that is not one of the caller\'s node objects (a query inserted it)')
+            R.violation('replayed', d)
+            return
         print('model:', model_batch([['reach', g, d['X']], ['rev', g], ['sub', g, d['X']], ['clone', g]]))
         sb = exotic_seq_bad(obs, Q, model_batch(exotic_seq_cmds(g, obs, Q)))
         print('node sets asked in a row:', sb or 'agree with the model')
